@@ -3,9 +3,10 @@ CONSTANTS
   NEvents = 2
   Clients = {"c1"}
   MaxReq = 2
-  Endpoints = {"pause", "continue", "state", "now", "tick", "component", "field", "buffers", "progress"}
+  Endpoints = {"pause", "continue", "state", "now", "tick", "component", "field", "field_paged", "field_missing", "buffers", "progress"}
   PauseWaits = TRUE
   HoldCtl = TRUE
+  EarlyWalk = {}
   Atomic = TRUE
   Record = TRUE
 INVARIANT EmitInv
